@@ -81,8 +81,13 @@ impl Transport {
 			return;
 		}
 		if let Some((loop_start, loop_end)) = self.loop_region {
-			while self.position <= loop_start {
-				self.position += loop_end - loop_start;
+			if self.position <= loop_start {
+				// step forwards by as many whole loop lengths as it takes
+				// to get past the start of the loop region (which can be
+				// any distance away from the audio)
+				let loop_length = loop_end - loop_start;
+				let distance = loop_start - self.position;
+				self.position += (distance / loop_length + 1) * loop_length;
 			}
 		}
 		if self.position == 0 {
